@@ -507,6 +507,26 @@ def tpsum_unit(res):
     return res
 
 
+def hidden_loads_switch_unit(res):
+    """MachineModel.has_hidden_loads: the data-port share of loads is dropped (set_hidden_loads) only for a model that says
+    `hidden_loads: true`; a model that does not specify it (key absent, or present without a value as in ivb.yml / snb.yml) or says
+    false keeps every load's share - otherwise the per-port values no longer add up to the micro-ops' cycles."""
+    ex = sem_engine()
+    for case, data in (("absent", {"isa": "x86"}), ("null", {"isa": "x86", "hidden_loads": None}), ("false", {"isa": "x86", "hidden_loads": False}),
+                       ("true", {"isa": "x86", "hidden_loads": True})):
+        def run(data=data):
+            return ex.call_method("MachineModel", "has_hidden_loads", SObj("MachineModel", _data=dict(data)), [])
+
+        paths = ex.explore(run, [])
+
+        def post(v, p, case=case):
+            t = v.t if isinstance(v, SBool) else z3.BoolVal(bool(v))
+            return t == z3.BoolVal(case == "true")
+
+        res.add_paths(paths, post, kind="hidden_loads=" + case)
+    return res
+
+
 def _composition_units():
     """memory forms composed from a register form: pressure = register form + load multiplier x load row + store multiplier x
     store row (the 'documented load/store multiplier' clause of the statement) - the C08 contracts, part of this check"""
@@ -531,6 +551,7 @@ def units(tier):
         Unit("C01/lemmas/uniform-split-feasible", lemma_unit, "L", []),
         Unit("C01/_handle_instruction_found", handle_found_unit, "P", [(AS, "ArchSemantics._handle_instruction_found")]),
         Unit("C01/assign_tp_lt/no-data-branches", tp_lt_trivial_unit, "P", [(AS, "ArchSemantics.assign_tp_lt")]),
+        Unit("C01/has_hidden_loads(only a model that says so)", hidden_loads_switch_unit, "P", [(HW, "MachineModel.has_hidden_loads")]),
         Unit("C01/get_throughput_sum", tpsum_unit, "Pb", [(AS, "ArchSemantics.get_throughput_sum")]),
     ] + _composition_units() + [
         bounded_unit("C01/assign_optimal_throughput/feasibility", "c01_optimal", [(AS, "ArchSemantics.assign_optimal_throughput")],
